@@ -93,3 +93,12 @@ for kind in (3, 4):
         floor=20, timeout=1800, mem_gb=20, objbits=14, memsafe=False,
         under_contract=['impl_helpers::remove_or_choose_subtree<inode_%d> (db: not found / descend / in-place removal / shrink, allocation failure)' % n, 'basic_inode_%d::remove' % n],
         trusted=['node_ptr as an abstract data type', 'one-level unfolding of the abstract map', 'the copy routine basic_inode_%d::init(db, inode_%d&, uint8_t) is replaced by its contract, proved on the real routine in node.db64.ctor.i%d_to_i%d' % (CLSN[kind - 1], n, n, CLSN[kind - 1])])
+# ---- the glue between insert_internal / remove_internal and the per-class step functions: the class dispatcher basic_inode_impl::{add,remove}_or_choose_subtree
+#      and the forwarding wrappers inode_N::{add,remove}_or_choose_subtree (art.hpp 700-800), callee = the step contract (recording stub, may throw)
+BI = r'unodb::detail::basic_inode_impl<unodb::detail::basic_art_policy<unsigned long, [^(]*unodb::db, [^(]*>::'
+IH = r'unodb::detail::impl_helpers::%s_or_choose_subtree<unsigned long, [^(]*unodb::detail::inode_%d<unsigned long'
+for what in ('add', 'remove'):
+    job('tree.db64.dispatch.' + what, ['C01', 'C08', 'C16'], 'u_db', 'proofs/tree/dispatch.c', defines=['POL=DB64', 'WHAT_' + what.upper()],
+        roots={'DISP': BI + what + r'_or_choose_subtree<'}, stubs={'STEP4': IH % (what, 4), 'STEP16': IH % (what, 16), 'STEP48': IH % (what, 48), 'STEP256': IH % (what, 256)},
+        cfgs=CFG_TREE, thorough_cfgs=ALL_CFGS, unwind=4, floor=5, timeout=300,
+        under_contract=['basic_inode_impl::%s_or_choose_subtree (class dispatch)' % what] + ['inode_%d::%s_or_choose_subtree (forwarding wrapper)' % (n, what) for n in (4, 16, 48, 256)])
